@@ -124,6 +124,18 @@ FIRING = [
                 self._save()""")]),
     dict(id="c12-untyped-equality-shortcut", fires={"C12": "C12.d"},
          edits=[(DT + "synced_list.py", "if data[i] == self._data[i] and type(data[i]) is type(self._data[i]):", "if data[i] == self._data[i]:")]),
+    dict(id="c05-memory-flush-writes-own-data", fires={"C05": "C05.g"},
+         edits=[(BUF + "memory_buffered_collection.py", """                self._data = cached_data["contents"]
+
+""", "")]),
+    dict(id="c07-registry-not-restored-on-conflict", fires={"C07": "C07.c"},
+         edits=[(BUF + "file_buffered_collection.py", """        with cls._BUFFER_LOCK:
+            cls._buffered_collections.update(remaining_collections)
+        if issues:
+            raise BufferedError(issues)""", """        if issues:
+            raise BufferedError(issues)
+        with cls._BUFFER_LOCK:
+            cls._buffered_collections.update(remaining_collections)""")]),
     # ------------------------------------------------------------------ C06
     dict(id="c06-flush-decides-on-own-data", fires={"C06": "C06.a"},
          edits=[(BUF + "memory_buffered_collection.py", """                    if cached_data["modified"]:
